@@ -862,6 +862,62 @@ def _immutable_result(v) -> bool:
     return False
 
 
+IMMUTABLE_ANNOTATIONS = {'str', 'int', 'float', 'bool', 'bytes', 'complex', 'type', 'None', 'tuple', 'frozenset', 'Tuple', 'FrozenSet', 'Type', 'Optional', 'Union',
+                         'datetime', 'timedelta', 'date', 'Path', 'PurePath', 'Enum'}
+TREE_READS = {'find', 'findall', 'findtext', 'iter', 'iterfind', 'itertext', 'getchildren', 'getiterator'}
+TREE_ATTRS = {'xml', 'base_tag', 'stories', 'items', 'story', 'item', 'source_stories', 'source_items', 'target_story', 'target_item'}
+
+
+def _annotation_immutable(ann) -> bool:
+    """the annotation names only immutable value types (str, int, Optional[str], Tuple[str, ...]): the cache key is the value"""
+    if ann is None:
+        return False
+    names = {n.id for n in ast.walk(ann) if isinstance(n, ast.Name)} | {n.attr for n in ast.walk(ann) if isinstance(n, ast.Attribute)}
+    consts = [n.value for n in ast.walk(ann) if isinstance(n, ast.Constant) and isinstance(n.value, str)]
+    for c in consts:                     # string annotations
+        try:
+            sub = ast.parse(c, mode='eval').body
+        except SyntaxError:
+            return False
+        names |= {n.id for n in ast.walk(sub) if isinstance(n, ast.Name)}
+    return bool(names) and names <= IMMUTABLE_ANNOTATIONS
+
+
+def _memo_reads_tree(fn):
+    """(parameter, what is read, line) when the memoised function `fn` reads the child structure of a parameter that is not
+    annotated as an immutable value: iteration / len / indexing of a parameter annotated with another type, Element search
+    methods (findall, iter, findtext ...; `find` unless the parameter is unannotated and could be a str), or the tree-valued
+    attributes of the package's wrappers (xml, base_tag, stories, items).  Reading .text/.tag/.attrib alone is not flagged:
+    no merge edits those in place."""
+    a = fn.args
+    params = {}
+    for arg in list(a.posonlyargs) + list(a.args) + list(a.kwonlyargs) + ([a.vararg] if a.vararg else []) + ([a.kwarg] if a.kwarg else []):
+        if not _annotation_immutable(arg.annotation):
+            params[arg.arg] = arg.annotation is not None or arg.arg in ('self', 'cls')
+    if not params:
+        return None
+    for node in ast.walk(fn):
+        if isinstance(node, ast.Attribute) and isinstance(node.value, ast.Name) and node.value.id in params:
+            p = node.value.id
+            if node.attr in TREE_ATTRS:
+                return (p, f'`{p}.{node.attr}`', node.lineno)
+            if node.attr in TREE_READS and (node.attr != 'find' or params[p]):
+                return (p, f'`{p}.{node.attr}(...)`', node.lineno)
+        its = []
+        if isinstance(node, (ast.For, ast.AsyncFor)):
+            its.append(node.iter)
+        if isinstance(node, ast.comprehension):
+            its.append(node.iter)
+        if isinstance(node, ast.Call) and isinstance(node.func, ast.Name) and node.func.id in ('list', 'tuple', 'len', 'iter', 'sorted', 'reversed', 'enumerate') and node.args:
+            its.append(node.args[0])
+        if isinstance(node, ast.Subscript):
+            its.append(node.value)
+        for it in its:
+            if isinstance(it, ast.Name) and it.id in params and params[it.id] and it.id not in ('self', 'cls'):
+                return (it.id, f'the children of `{it.id}` (iteration / len / indexing)', it.lineno)
+    return None
+
+
 def no_shared_memo(res: CheckResult, prog: Program):
     """A memoising decorator hands the *same* result object to every caller with equal arguments.  For functions that
     return (or build objects around) a mutable parse tree this makes independent objects share one document."""
@@ -884,6 +940,11 @@ def no_shared_memo(res: CheckResult, prog: Program):
             res.add('NO-SHARED-MEMO', node.name, f'@{memo[0]} def {node.name}', immutable,
                     '' if immutable else f'{node.name} is memoised and returns {norm(rets[0]) if rets else "?"}: every object built from an equal input shares that result '
                     '(a merge into one running order then shows up in another; a completed marker leaks to a fresh object)', m.relpath, node.lineno)
+            stale = _memo_reads_tree(node)
+            res.add('NO-SHARED-MEMO', node.name, f'@{memo[0]} def {node.name}: result depends only on the cache key', not stale,
+                    '' if not stale else f'{node.name} is memoised by the identity of `{stale[0]}` but computes its result from {stale[1]} (line {stale[2]}): '
+                    'the child structure of a tree the merges edit in place is not part of the cache key, so the first answer is returned after the tree has changed',
+                    m.relpath, node.lineno)
     res.add('NO-SHARED-MEMO', 'package', f'{n} function definitions scanned for memoising decorators', True)
     no_shared_default(res, prog)
 
